@@ -6,6 +6,9 @@
 (* The reset line of a trace carries the document (input), the API, the delivery the     *)
 (* decoder saw (rd, eof: see Styling.tla) and, for every run but the reference run of    *)
 (* the document, the observations of the reference run (ref).                            *)
+(* form = "octets": input, token data and info are sequences of octets; form = "runs"   *)
+(* (documents with very long lines): they are sequences of runs <<octet, count>> and     *)
+(* the monitor judges them in that form (Styling.tla, "the run-length form").            *)
 EXTENDS Styling, Json
 
 Trace == ndJsonDeserialize("trace.ndjson")
@@ -22,7 +25,7 @@ TInit ==
 
 TrReset ==
   /\ l = t0 /\ Trace[l].ev = "reset"
-  /\ st' = StartD(Trace[l].input, Trace[l].api, Trace[l].ref, Trace[l].rd, Trace[l].eof)
+  /\ st' = StartDF(Trace[l].form = "runs", Trace[l].input, Trace[l].api, Trace[l].ref, Trace[l].rd, Trace[l].eof)
   /\ l' = l + 1
   /\ UNCHANGED <<out, lastNL>>
 
@@ -33,8 +36,8 @@ TrObserve ==
          s2 == Step(st, e)
      IN /\ s2.why = ""
         /\ st' = s2
-        /\ out' = IF e.ev = "tok" THEN out \o e.data ELSE out
-        /\ lastNL' = IF e.ev = "tok" THEN EndsLine(e.data) ELSE lastNL
+        /\ out' = IF e.ev = "tok" THEN DCat(st.rle, out, e.data) ELSE out
+        /\ lastNL' = IF e.ev = "tok" THEN EndsLineF(st.rle, e.data) ELSE lastNL
   /\ l' = l + 1
 
 (* the invariants of the design check must also hold along real traces *)
@@ -51,7 +54,7 @@ TSpec == TInit /\ [][TNext]_tvars
 HW == TLCSet(t0, IF TLCGet(t0) < l THEN l ELSE TLCGet(t0))
 (* a trace is accepted when all its lines were consumed and its last line was the end   *)
 Rejected == {i \in Starts : TLCGet(i) # EndOf(i)}
-Why(i) == WhyNotD(Trace[i].input, Trace[i].api, Trace[i].ref, Trace[i].rd, Trace[i].eof, SubSeq(Trace, i + 1, EndOf(i) - 1))
+Why(i) == WhyNotDF(Trace[i].form = "runs", Trace[i].input, Trace[i].api, Trace[i].ref, Trace[i].rd, Trace[i].eof, SubSeq(Trace, i + 1, EndOf(i) - 1))
 Accepted ==
   \/ Rejected = {}
   \/ PrintT(<<"REJECTED", {<<Trace[i].t, TLCGet(i), Why(i)>> : i \in Rejected}>>) /\ FALSE
